@@ -82,15 +82,6 @@ class _RandShim:
         return w.jitter(hn, self.site, a, b)
 
 
-def _resolve_all_futures_ordered(futs):
-    """Same effect as zeroconf._utils.asyncio._resolve_all_futures_to_none, but in
-    creation order instead of id()-hash order (production order is arbitrary)."""
-    for fut in sorted(futs, key=lambda f: getattr(f, "_sim_seq", 0)):
-        if not fut.done():
-            fut.set_result(None)
-    futs.clear()
-
-
 class OrderedSet(collections.abc.MutableSet):
     """Insertion-ordered replacement for the id()-ordered sets of listeners / futures: a full set (every operator of
     collections.abc.MutableSet), whose iteration order is reproducible, and which - like a real set - refuses to be
@@ -191,8 +182,8 @@ def install_seams():
     zc_browser.random = _RandShim("browser_start")
     zc_mq.RAND_INT = _RandShim("mcast_q").randint
     zc_info.randint = _RandShim("info").randint
-    zc_core._resolve_all_futures_to_none = _resolve_all_futures_ordered
-    zc_info._resolve_all_futures_to_none = _resolve_all_futures_ordered
+    # (the library's own _resolve_all_futures_to_none runs: the instance's set of waiters is an OrderedSet, see Host.start;
+    # a ServiceInfo's own set holds one future per concurrent request on that object, of which the drivers make one)
     lg = logging.getLogger("zeroconf")
     lg.handlers[:] = [logging.NullHandler()]
     lg.propagate = False
